@@ -228,7 +228,7 @@ fn coq_op(op: &str) -> String {
     match op {
         "array_int" => "OArray 8".into(), "array_float" => "OArray 8".into(), "array_bool" => "OArray 1".into(), "array_obj" => "OArray 8".into(),
         "vec_push" => "OVecPush".into(), "vec_reserve" => "OVecReserve".into(), "manual_alloc" => "OManual".into(),
-        "bytes_alloc" => "OBytes".into(), "string_repeat" => "ORepeat 16".into(), "pad_left" => "OPad true 16".into(), "pad_right" => "OPad false 16".into(),
+        "bytes_alloc" => "OBytes".into(), "string_repeat" => "ORepeat 16".into(), "pad_left" => "OPad 16".into(), "pad_right" => "OPad 16".into(),
         "concat_double" => "OConcatDouble 16".into(), "vec_new_lit" => "OVecLits".into(), "closures" => "OClosures".into(), o => format!("OUnknown_{}", o),
     }
 }
